@@ -23,6 +23,23 @@ C02_StaticEverywhere == IsR => \A i \in 0..(N - 1) : P[i].kind = "ok" => P[i].st
 
 \* the real renderer groups rows exactly as the transcription of the algorithm does
 M == [i \in 0..(N - 1) |-> Render(C, i)]
+
+(* "walk" lines: a client walking a node's pages through the real engine with the next selector (one long-lived engine, or   *)
+(* a fresh engine per request), also on a second visit after another node with a different sink was shown.  The walk ends at   *)
+(* the first page that offers no next entry (or at a failing request).                                                           *)
+IsW == Have /\ Ev.ev = "walk"
+WComplete == Ev.ended = "nonext"
+WFlat == FlatTo(P, N - 1)
+C01_WalkFits == IsW => Fits(Ev.cfg.size, P)
+\* every offered next leads to a page that renders (a first page that cannot be rendered at all is an error, not a violation)
+C02_WalkNoFail == IsW => Ev.ended # "stuck" /\ \A i \in 1..(N - 1) : P[i].kind = "ok"
+C02_WalkPartition == IsW /\ WComplete => WFlat = Ev.rows
+C02_WalkStatic == IsW => \A i \in 0..(N - 1) : P[i].kind = "ok" => P[i].staticok
+C02_WalkNav == IsW /\ WComplete => \A i \in 0..(N - 1) : (P[i].next <=> i < N - 1) /\ (P[i].prev <=> i > 0)
+\* the pages of the walk are the pages the algorithm transcription produces (what identifies the known renderer findings)
+Drift_Walk == IsW => \A i \in 0..(N - 1) : /\ M[i].kind = P[i].kind
+                                           /\ (P[i].kind = "ok" => M[i].len = P[i].len /\ M[i].next = P[i].next /\ M[i].prev = P[i].prev)
+
 Drift_Algo == IsR => \A i \in 0..(N - 1) :
                  /\ M[i].kind = P[i].kind
                  /\ (P[i].kind = "ok" => /\ M[i].len = P[i].len /\ M[i].next = P[i].next /\ M[i].prev = P[i].prev
